@@ -556,6 +556,15 @@ func (fr *Frame) applyContract(ins ssa.CallInstruction, ci *calleeInfo, args []T
 		}
 		fr.oblige("call.pre."+short, r.Label, t, ins.Pos(), "precondition of "+shortKey(ci.key)+": "+r.Src)
 	}
+	// recursion: the termination measure strictly decreases and is bounded below
+	if top := fr.topFrame(); top.fc == fc && len(fc.Decreases) > 0 {
+		entry := top.entryEnv()
+		for _, d := range fc.Decreases {
+			before := entry.eval(d.E).T
+			now := envPre.eval(d.E).T
+			fr.oblige("decreases."+short, d.Label, Term{fmt.Sprintf("(and (<= 0 %s) (< %s %s))", now.S, now.S, before.S), SBool}, ins.Pos(), "recursive call decreases the measure: "+d.Src)
+		}
+	}
 	if fc.Trusted {
 		c.assumed["assumed contract: "+shortKey(fc.Key)] = true
 	}
